@@ -453,6 +453,8 @@ def run(ctx):
     ctx.assumptions += ["integer / dyadic inputs: comparison tolerance 1e-9 (relative+absolute) against exact rationals",
                         "gradient oracle: Richardson-extrapolated central differences of forward in parameter space, tolerance 1e-5 relative to scale"]
     lines, pending = [], []     # pending: (line index, key, desc, impl canonical, tol)
+    from harness.props import c12_ext
+    genc = c12_ext.GeomEncoder(cuqi)
     hist = ctx.extra_cov.setdefault("config_histogram", {})
     verdicts = ctx.extra_cov.setdefault("oracle_verdicts", {})
     refusals = ctx.extra_cov.setdefault("refusal_classes", {})
@@ -541,7 +543,22 @@ def run(ctx):
                 return "I"
             except KeyError:
                 return "K"
-        eqr = eq_eval(Dg, Rg) + eq_eval(Rg, Dg)     # value of `D == R` and of `R == D` on the implementation
+        # the same two comparisons computed by the model from vars() taken right before each of them (op `geq`)
+        def geq_tokens(a_, b_):
+            try:
+                return genc.token(a_), genc.token(b_)
+            except c12_ext._Unsupported:
+                return None
+        tk1 = geq_tokens(Dg, Rg)
+        e1 = eq_eval(Dg, Rg)
+        tk2 = geq_tokens(Rg, Dg)
+        e2 = eq_eval(Rg, Dg)
+        eqr = e1 + e2     # value of `D == R` and of `R == D` on the implementation
+        for tk_, e_, lab_ in ((tk1, e1, "D==R"), (tk2, e2, "R==D")):
+            if tk_ is not None and e_ in "TF":
+                dsc_ = {"call": "Geometry.__eq__", "pair": lab_, "domain": D.label, "range": R.label, "seed_index": ci}
+                ctx.case("geometry-eq:model-pair", dsc_)
+                lines.append(f"geq {tk_[0]} {tk_[1]}"); pending.append((len(lines) - 1, "tie:geometry-eq:model-pair", dsc_, ("raw", e_), 0.0))
         eq_raises = ("I" in eqr) or ("K" in eqr)
         loose_eq = eqr[0] == "T" and type(Dg) is not type(Rg)      # `D == R` holds between geometries of different classes
         gD, gR = 0, 1
@@ -741,6 +758,8 @@ def run(ctx):
     c12_ext.nofun2par_ranges(ctx, cuqi, lines, pending, verdicts, oracle_jobs, 96 if thorough else 16)
     c12_ext.linear_objects(ctx, cuqi, lines, pending, verdicts, 480 if thorough else 48)
     c12_ext.constructors(ctx, cuqi, lines, pending, thorough)
+    c12_ext.geometry_equality(ctx, cuqi, lines, pending, thorough)
+    c12_ext.gradient_samples_wrt(ctx, cuqi, lines, pending, verdicts, 340 if thorough else 68)
 
     # -------------------------------------------------------------------- model side + diff
     outs = ctx.lean.drive(lines)
